@@ -365,6 +365,31 @@ theorem insertCheck_none (v : Hdr → Hdr → Bool) (a : AbsStore) (batch : List
     repeat' split
     all_goals simp
 
+theorem placement_ok (a : AbsStore) (lo hi : Nat) (h : AbsStore.placement a lo hi = .ok ()) :
+    1 ≤ lo ∧ lo ≤ hi ∧ ∀ x ∈ a.hdrs, ¬ (lo ≤ x.height ∧ x.height ≤ hi) := by
+  unfold AbsStore.placement at h
+  by_cases h2 : (lo == 0 || decide (lo > hi)) = true
+  · rw [if_pos h2] at h; simp at h
+  rw [if_neg h2] at h
+  dsimp only at h
+  by_cases h3 : (!(a.hdrs.all fun x => decide (x.height < lo)) && a.hdrs.any fun x => between lo hi x.height) = true
+  · rw [if_pos h3] at h; simp at h
+  refine ⟨by simp at h2; omega, by simp at h2; omega, ?_⟩
+  intro x hx hb
+  by_cases hall : (a.hdrs.all fun x => decide (x.height < lo)) = true
+  · have := List.all_eq_true.1 hall x hx
+    simp at this; omega
+  · have hany : (a.hdrs.any fun x => between lo hi x.height) = false := by
+      cases hany : (a.hdrs.any fun x => between lo hi x.height) with
+      | false => rfl
+      | true =>
+        exfalso; apply h3
+        simp only [Bool.not_eq_true] at hall
+        simp [hall, hany]
+    have h7 := List.any_eq_false.1 hany x hx
+    simp [between] at h7
+    omega
+
 theorem insertCheck_some (v : Hdr → Hdr → Bool) (a : AbsStore) (batch : List Hdr) (lo hi : Nat)
     (h : AbsStore.insertCheck v a batch = .ok (some (lo, hi))) :
     ∃ first last, InsertOK v a batch first last ∧ lo = first.height ∧ hi = last.height := by
@@ -372,50 +397,30 @@ theorem insertCheck_some (v : Hdr → Hdr → Bool) (a : AbsStore) (batch : List
   split at h
   next first last hf hl =>
     refine ⟨first, last, ?_⟩
-    dsimp only at h
     by_cases h1 : (!chainOK v batch) = true
     · rw [if_pos h1] at h; simp at h
     rw [if_neg h1] at h
-    by_cases h2 : (first.height == 0 || decide (first.height > last.height)) = true
-    · rw [if_pos h2] at h; simp at h
-    rw [if_neg h2] at h
-    by_cases h3 : (!(a.hdrs.all fun x => decide (x.height < first.height)) && a.hdrs.any fun x => between first.height last.height x.height) = true
-    · rw [if_pos h3] at h; simp at h
-    rw [if_neg h3] at h
-    by_cases h4 : (!(a.hdrs.all fun x => decide (x.height < first.height)) && !a.stored (first.height - 1) && !a.stored (last.height + 1)) = true
-    · rw [if_pos h4] at h; simp at h
-    rw [if_neg h4] at h
-    by_cases h5 : (!AbsStore.prevOK v a first || !AbsStore.nextOK v a last) = true
-    · rw [if_pos h5] at h; simp at h
-    rw [if_neg h5] at h
-    cases h6 : firstDupHash (a.hdrs.map (·.hash)) batch with
-    | some q => rw [h6] at h; simp at h
-    | none =>
-      rw [h6] at h
-      simp at h
-      refine ⟨⟨hf, hl, by simpa using h1, ?_, ?_, ?_, ?_, ?_, h6⟩, h.1.symm, h.2.symm⟩
-      · simp at h2; omega
-      · simp at h2; omega
-      · intro x hx hb
-        by_cases hall : (a.hdrs.all fun x => decide (x.height < first.height)) = true
-        · have := List.all_eq_true.1 hall x hx
-          simp at this; omega
-        · have hany : (a.hdrs.any fun x => between first.height last.height x.height) = false := by
-            cases hany : (a.hdrs.any fun x => between first.height last.height x.height) with
-            | false => rfl
-            | true =>
-              exfalso; apply h3
-              simp only [Bool.not_eq_true] at hall
-              simp [hall, hany]
-          have h7 := List.any_eq_false.1 hany x hx
-          simp [between] at h7
-          omega
-      · intro p hp
-        simp only [AbsStore.prevOK, AbsStore.nextOK, hp] at h5
-        simp at h5; exact h5.1
-      · intro n hn
-        simp only [AbsStore.prevOK, AbsStore.nextOK, hn] at h5
-        simp at h5; exact h5.2
+    cases hp : AbsStore.placement a first.height last.height with
+    | error e => rw [hp] at h; simp at h
+    | ok u =>
+      rw [hp] at h
+      simp only at h
+      by_cases h5 : (!AbsStore.prevOK v a first || !AbsStore.nextOK v a last) = true
+      · rw [if_pos h5] at h; simp at h
+      rw [if_neg h5] at h
+      cases h6 : firstDupHash (a.hdrs.map (·.hash)) batch with
+      | some q => rw [h6] at h; simp at h
+      | none =>
+        rw [h6] at h
+        simp at h
+        obtain ⟨p1, p2, p3⟩ := placement_ok a _ _ hp
+        refine ⟨⟨hf, hl, by simpa using h1, p1, p2, p3, ?_, ?_, h6⟩, h.1.symm, h.2.symm⟩
+        · intro p hp'
+          simp only [AbsStore.prevOK, AbsStore.nextOK, hp'] at h5
+          simp at h5; exact h5.1
+        · intro n hn
+          simp only [AbsStore.prevOK, AbsStore.nextOK, hn] at h5
+          simp at h5; exact h5.2
   · simp at h
 
 /-- the invariants C19 names, on an abstract state (Prop form of `invOK`, plus `u64` typing) -/
@@ -477,6 +482,64 @@ theorem head_of_mem {l : List Hdr} {first : Hdr} (h : l.head? = some first) : fi
 theorem last_of_mem {l : List Hdr} {last : Hdr} (h : l.getLast? = some last) : last ∈ l :=
   List.mem_of_getLast? h
 
+theorem added_inv (v : Hdr → Hdr → Bool) (a : AbsStore) (batch : List Hdr) (first last : Hdr)
+    (ok : InsertOK v a batch first last)
+    (hi : AbsInv a) (hwf : ∀ x ∈ batch, x.height ≤ U64_MAX) :
+    AbsInv (added a batch first.height last.height) := by
+  obtain ⟨b1, b2, b3⟩ := batch_heights v batch first last ok.chain ok.hd ok.lst
+  have hst : ∀ h, (added a batch first.height last.height).stored h = true ↔
+        (a.stored h = true ∨ (first.height ≤ h ∧ h ≤ last.height)) := by
+    intro h
+    rw [stored_iff, stored_iff]
+    simp only [added, List.mem_append]
+    constructor
+    · rintro ⟨x, hx | hx, e⟩
+      · exact Or.inl ⟨x, hx, e⟩
+      · have := b2 x hx; right; omega
+    · rintro (⟨x, hx, e⟩ | ⟨h1, h2⟩)
+      · exact ⟨x, Or.inl hx, e⟩
+      · obtain ⟨x, hx, e⟩ := b3 h h1 h2
+        exact ⟨x, Or.inr hx, e⟩
+  have nd := (firstDup_none _ _).1 ok.nodup
+  constructor
+  · simp only [added, List.map_append]
+    rw [List.nodup_append]
+    refine ⟨hi.nodupH, b1, ?_⟩
+    intro h1 hh1 h2 hh2 e
+    obtain ⟨x, hx, ex⟩ := List.mem_map.1 hh1
+    obtain ⟨y, hy, ey⟩ := List.mem_map.1 hh2
+    have := b2 y hy
+    apply ok.disjoint x hx
+    omega
+  · simp only [added, List.map_append]
+    rw [List.nodup_append]
+    refine ⟨hi.nodupQ, nd.2, ?_⟩
+    intro h1 hh1 h2 hh2 e
+    obtain ⟨y, hy, ey⟩ := List.mem_map.1 hh2
+    apply nd.1 y hy
+    rw [ey, ← e]; exact hh1
+  · intro x hx
+    simp only [added, List.mem_append] at hx
+    rcases hx with hx | hx
+    · exact hi.bounds x hx
+    · have := b2 x hx
+      exact ⟨by have := ok.lo_pos; omega, hwf x hx⟩
+  · intro h hh
+    simp only [added, List.mem_filter] at hh
+    exact (hst h).2 (Or.inl (hi.sampled h hh.1))
+  · intro h hh
+    simp only [added, List.mem_filter] at hh
+    rw [← Bool.not_eq_true, hst h]
+    rintro (hs | hb)
+    · rw [hi.pruned h hh.1] at hs; cases hs
+    · have := hh.2; simp [between] at this; omega
+  · intro h hh
+    simp only [added, List.mem_filter] at hh
+    exact hi.prunedB h hh.1
+  · intro p hp
+    exact (hst p.1).2 (Or.inl (hi.metas p hp))
+
+
 theorem insert_inv (v : Hdr → Hdr → Bool) (a : AbsStore) (batch : List Hdr)
     (hi : AbsInv a) (hwf : ∀ x ∈ batch, x.height ≤ U64_MAX) : AbsInv (a.insert v batch).1 := by
   cases hc : AbsStore.insertCheck v a batch with
@@ -489,58 +552,46 @@ theorem insert_inv (v : Hdr → Hdr → Bool) (a : AbsStore) (batch : List Hdr)
       rw [insert_eq_added v a batch lo hi' hc]
       obtain ⟨first, last, ok, e1, e2⟩ := insertCheck_some v a batch lo hi' hc
       subst e1 e2
-      obtain ⟨b1, b2, b3⟩ := batch_heights v batch first last ok.chain ok.hd ok.lst
-      have hst : ∀ h, (added a batch first.height last.height).stored h = true ↔
-            (a.stored h = true ∨ (first.height ≤ h ∧ h ≤ last.height)) := by
-        intro h
-        rw [stored_iff, stored_iff]
-        simp only [added, List.mem_append]
-        constructor
-        · rintro ⟨x, hx | hx, e⟩
-          · exact Or.inl ⟨x, hx, e⟩
-          · have := b2 x hx; right; omega
-        · rintro (⟨x, hx, e⟩ | ⟨h1, h2⟩)
-          · exact ⟨x, Or.inl hx, e⟩
-          · obtain ⟨x, hx, e⟩ := b3 h h1 h2
-            exact ⟨x, Or.inr hx, e⟩
-      have nd := (firstDup_none _ _).1 ok.nodup
-      constructor
-      · simp only [added, List.map_append]
-        rw [List.nodup_append]
-        refine ⟨hi.nodupH, b1, ?_⟩
-        intro h1 hh1 h2 hh2 e
-        obtain ⟨x, hx, ex⟩ := List.mem_map.1 hh1
-        obtain ⟨y, hy, ey⟩ := List.mem_map.1 hh2
-        have := b2 y hy
-        apply ok.disjoint x hx
-        omega
-      · simp only [added, List.map_append]
-        rw [List.nodup_append]
-        refine ⟨hi.nodupQ, nd.2, ?_⟩
-        intro h1 hh1 h2 hh2 e
-        obtain ⟨y, hy, ey⟩ := List.mem_map.1 hh2
-        apply nd.1 y hy
-        rw [ey, ← e]; exact hh1
-      · intro x hx
-        simp only [added, List.mem_append] at hx
-        rcases hx with hx | hx
-        · exact hi.bounds x hx
-        · have := b2 x hx
-          exact ⟨by have := ok.lo_pos; omega, hwf x hx⟩
-      · intro h hh
-        simp only [added, List.mem_filter] at hh
-        exact (hst h).2 (Or.inl (hi.sampled h hh.1))
-      · intro h hh
-        simp only [added, List.mem_filter] at hh
-        rw [← Bool.not_eq_true, hst h]
-        rintro (hs | hb)
-        · rw [hi.pruned h hh.1] at hs; cases hs
-        · have := hh.2; simp [between] at this; omega
-      · intro h hh
-        simp only [added, List.mem_filter] at hh
-        exact hi.prunedB h hh.1
-      · intro p hp
-        exact (hst p.1).2 (Or.inl (hi.metas p hp))
+      exact added_inv v a batch first last ok hi hwf
+
+theorem added_ver (v : Hdr → Hdr → Bool) (a : AbsStore) (batch : List Hdr) (first last : Hdr)
+    (ok : InsertOK v a batch first last)
+    (hi : AbsInv a) (hv : AbsVer v a) : AbsVer v (added a batch first.height last.height) := by
+  obtain ⟨b1, b2, b3⟩ := batch_heights v batch first last ok.chain ok.hd ok.lst
+  intro x hx y hy e
+  simp only [added, List.mem_append] at hx hy
+  have hfirst := head_of_mem ok.hd
+  have hlast := last_of_mem ok.lst
+  -- a header of the batch is determined by its height
+  have uniq : ∀ z ∈ batch, ∀ w ∈ batch, z.height = w.height → z = w := by
+    intro z hz w hw ezw
+    exact nodup_map_inj (fun y => y.height) batch b1 z hz w hw ezw
+  rcases hx with hx | hx <;> rcases hy with hy | hy
+  · exact hv x hx y hy e
+  · -- x stored before, y in the batch: y is the first header and x its lower neighbour
+    have hy2 := b2 y hy
+    have hxn := ok.disjoint x hx
+    have : y.height = first.height := by omega
+    have ey : y = first := uniq y hy first hfirst this
+    subst ey
+    apply ok.prev x
+    rw [atHeight_some hi]; exact ⟨hx, by omega⟩
+  · have hx2 := b2 x hx
+    have hyn := ok.disjoint y hy
+    have : x.height = last.height := by omega
+    have ex : x = last := uniq x hx last hlast this
+    subst ex
+    apply ok.next y
+    rw [atHeight_some hi]; exact ⟨hy, by omega⟩
+  · -- both in the batch: consecutive positions
+    obtain ⟨i, hi1, ei⟩ := List.mem_iff_getElem.1 hx
+    obtain ⟨j, hj1, ej⟩ := List.mem_iff_getElem.1 hy
+    have h1 := heights_idx v batch ok.chain i hi1
+    have h2 := heights_idx v batch ok.chain j hj1
+    have : j = i + 1 := by rw [ei] at h1; rw [ej] at h2; omega
+    subst this
+    have := (chain_idx v batch ok.chain i hj1).2
+    rw [ei, ej] at this; exact this
 
 theorem insert_ver (v : Hdr → Hdr → Bool) (a : AbsStore) (batch : List Hdr)
     (hi : AbsInv a) (hv : AbsVer v a) : AbsVer v (a.insert v batch).1 := by
@@ -554,41 +605,8 @@ theorem insert_ver (v : Hdr → Hdr → Bool) (a : AbsStore) (batch : List Hdr)
       rw [insert_eq_added v a batch lo hi' hc]
       obtain ⟨first, last, ok, e1, e2⟩ := insertCheck_some v a batch lo hi' hc
       subst e1 e2
-      obtain ⟨b1, b2, b3⟩ := batch_heights v batch first last ok.chain ok.hd ok.lst
-      intro x hx y hy e
-      simp only [added, List.mem_append] at hx hy
-      have hfirst := head_of_mem ok.hd
-      have hlast := last_of_mem ok.lst
-      -- a header of the batch is determined by its height
-      have uniq : ∀ z ∈ batch, ∀ w ∈ batch, z.height = w.height → z = w := by
-        intro z hz w hw ezw
-        exact nodup_map_inj (fun y => y.height) batch b1 z hz w hw ezw
-      rcases hx with hx | hx <;> rcases hy with hy | hy
-      · exact hv x hx y hy e
-      · -- x stored before, y in the batch: y is the first header and x its lower neighbour
-        have hy2 := b2 y hy
-        have hxn := ok.disjoint x hx
-        have : y.height = first.height := by omega
-        have ey : y = first := uniq y hy first hfirst this
-        subst ey
-        apply ok.prev x
-        rw [atHeight_some hi]; exact ⟨hx, by omega⟩
-      · have hx2 := b2 x hx
-        have hyn := ok.disjoint y hy
-        have : x.height = last.height := by omega
-        have ex : x = last := uniq x hx last hlast this
-        subst ex
-        apply ok.next y
-        rw [atHeight_some hi]; exact ⟨hy, by omega⟩
-      · -- both in the batch: consecutive positions
-        obtain ⟨i, hi1, ei⟩ := List.mem_iff_getElem.1 hx
-        obtain ⟨j, hj1, ej⟩ := List.mem_iff_getElem.1 hy
-        have h1 := heights_idx v batch ok.chain i hi1
-        have h2 := heights_idx v batch ok.chain j hj1
-        have : j = i + 1 := by rw [ei] at h1; rw [ej] at h2; omega
-        subst this
-        have := (chain_idx v batch ok.chain i hj1).2
-        rw [ei, ej] at this; exact this
+      exact added_ver v a batch first last ok hi hv
+
 theorem remove_err (a : AbsStore) (h : Nat) (hs : a.stored h = false) : a.remove h = (a, .err .notFound) := by
   simp [AbsStore.remove, hs]
 
